@@ -55,8 +55,11 @@ var registry = map[string]propDef{
 	"C18y": {"other", props.C18layout},
 	"C19m": {"other", props.C19mesh},
 	"C19s": {"other", props.C19setconn},
+	"C19o": {"other", props.C19shift},
+	"C10z": {"other", props.C19shift},
 	"C20":  {"other", props.C20transport},
 	"C20a": {"other", props.C20arith},
+	"C20r": {"other", props.C20rounding},
 	"C06g": {"other", props.C06geom},
 	"C06m": {"other", props.C06mitccrh},
 	"C06k": {"other", props.C06kdf},
@@ -84,6 +87,7 @@ var registry = map[string]propDef{
 	"C11f": {"other", props.C11fill},
 	"C12":  {"other", props.C12},
 	"C13":  {"other", props.C13},
+	"C13p": {"other", props.C13parse},
 	"C17":  {"other", props.C17},
 	"C17p": {"other", props.C17pool},
 	"C17h": {"other", props.C17handle},
